@@ -1709,57 +1709,6 @@ Section WInv.
       unfold loc, get_slot in *. exact L.
   Qed.
 
-  Variable fuel_of : cstate -> nat.
-
-  Lemma Inv_step s o : Inv s -> NW s -> Inv (fst (step tp fuel_of s o)).
-  Proof.
-    intros I Hnw.
-    assert (Easy : forall s', UI s s' -> UFrame s s' -> Inv s') by (intros; eapply Inv_UI; eassumption).
-    pose proof (iv_x _ I) as X. pose proof (iv_l _ I) as G.
-    destruct o; cbn [step fst].
-    - (* CloneHandle *)
-      destruct (nth_error (handles s) h) as [[|]|]; try exact I.
-      apply Easy; [|apply UFrame_upd_misc]. unfold UI.
-      split; [eapply IX_same; [..|exact X]; reflexivity|].
-      split; [eapply GL_frame; [..|exact G]; reflexivity|auto].
-    - (* DropHandle *)
-      destruct (nth_error (handles s) h) as [[|]|]; try exact I.
-      apply Easy; [|apply UFrame_upd_misc]. unfold UI.
-      split; [eapply IX_same; [..|exact X]; reflexivity|].
-      split; [eapply GL_frame; [..|exact G]; reflexivity|auto].
-    - (* Call *)
-      apply Easy; [|apply UFrame_upd_calls]. apply UI_new_call; [exact X|exact G|].
-      cbn [c_phase]. destruct (nth_error (handles s) h) as [[|]|]; auto.
-    - (* PollCall *)
-      pose proof (poll_call_UI s i X G Hnw) as U. pose proof (UFrame_poll_call s i) as F.
-      destruct (poll_call s i) as [r s1]. cbn [fst snd] in *. eapply Inv_UI; eassumption.
-    - (* DropCall *)
-      destruct (option_map c_phase (nth_error (calls s) i)) as [[]|];
-        try exact I;
-        (pose proof (guard_close_UI s i X G) as U1;
-         pose proof (guard_cancel_UI (guard_close s i) i (proj1 U1) (proj1 (proj2 U1))) as U2;
-         apply Easy; [eapply UI_trans; eassumption
-                     |eapply UFrame_trans; [apply UFrame_guard_close|apply UFrame_guard_cancel]]).
-    - (* GuardClose *)
-      destruct (option_map c_phase (nth_error (calls s) i)) as [[]|];
-        try exact I; (apply Easy; [apply guard_close_UI; assumption|apply UFrame_guard_close]).
-    - (* GuardCancel *)
-      apply Easy; [apply guard_cancel_UI; assumption|apply UFrame_guard_cancel].
-    - (* PollDispatch *)
-      destruct (finished s) eqn:Ef; [exact I|]. destruct (dropped s) eqn:Ed; [exact I|].
-      destruct (poll_dispatch tp _ _) as [r s1] eqn:Ep. cbn [fst].
-      exact (Inv_after_pd _ _ _ _ Ep I Ef Ed).
-    - (* DropDispatch *)
-      destruct (dropped s); [exact I|apply Inv_drop_dispatch, I].
-    - (* Advance *)
-      apply Easy; [|apply UFrame_upd_misc]. unfold UI.
-      split; [eapply IX_same; [..|exact X]; reflexivity|].
-      split; [eapply GL_frame; [..|exact G]; reflexivity|auto].
-    - (* Tr *)
-      apply Easy; [|constructor; reflexivity]. unfold UI.
-      split; [eapply IX_same; [..|exact X]; reflexivity|].
-      split; [eapply GL_frame; [..|exact G]; reflexivity|auto].
-  Qed.
 
   (* ---------------------------------------------------------------- phases only move forward *)
   Definition rankN (p : phase) : N :=
@@ -2136,7 +2085,7 @@ Section WInv.
           destruct (poll_call_shape s i c Ec) as [[Hq Hc]|[[Hq Hc]|(k' & Sk & Hk)]].
           -- rewrite Hq in H. destruct (IH _ _ _ _ _ H E) as (-> & -> & Hall).
              repeat split. intros j k Hj Ek Hlk.
-             destruct (Nat.eq_dec j i) as [->|Hn]; [|apply Hall; [lia|exact Ek|exact Hlk]].
+             destruct (Nat.eq_dec j i) as [->|Hn]; [|apply (Hall j); [lia|exact Ek|exact Hlk]].
              rewrite Ec in Ek. injection Ek as <-. exact Hc.
           -- congruence.
           -- exfalso. destruct (poll_call s i) as [r s1] eqn:Ep. cbn [snd] in *.
@@ -2146,9 +2095,812 @@ Section WInv.
              pose proof (E1 i c k' Ec (SN_nth _ _ _ _ _ Ec Sk)) as X. rewrite X in Hk. lia.
         * destruct (IH _ _ _ _ _ H E) as (-> & -> & Hall).
           repeat split. intros j k Hj Ek Hlk.
-          destruct (Nat.eq_dec j i) as [->|Hn]; [congruence|apply Hall; [lia|exact Ek|exact Hlk]].
+          destruct (Nat.eq_dec j i) as [->|Hn]; [congruence|apply (Hall j); [lia|exact Ek|exact Hlk]].
       + destruct (IH _ _ _ _ _ H E) as (-> & -> & Hall).
         repeat split. intros j k Hj Ek Hlk.
-        destruct (Nat.eq_dec j i) as [->|Hn]; [congruence|apply Hall; [lia|exact Ek|exact Hlk]].
+        destruct (Nat.eq_dec j i) as [->|Hn]; [congruence|apply (Hall j); [lia|exact Ek|exact Hlk]].
+  Qed.
+
+  Variable fuel_of : cstate -> nat.
+
+  Lemma Inv_step s o : Inv s -> NW s -> Inv (fst (step tp fuel_of s o)).
+  Proof.
+    intros I Hnw.
+    assert (Easy : forall s', UI s s' -> UFrame s s' -> Inv s') by (intros; eapply Inv_UI; eassumption).
+    pose proof (iv_x _ I) as X. pose proof (iv_l _ I) as G.
+    destruct o; cbn [step fst].
+    - (* CloneHandle *)
+      destruct (nth_error (handles s) h) as [[|]|]; try exact I.
+      apply Easy; [|apply UFrame_upd_misc]. unfold UI.
+      split; [eapply IX_same; [..|exact X]; reflexivity|].
+      split; [eapply GL_frame; [..|exact G]; reflexivity|auto].
+    - (* DropHandle *)
+      destruct (nth_error (handles s) h) as [[|]|]; try exact I.
+      apply Easy; [|apply UFrame_upd_misc]. unfold UI.
+      split; [eapply IX_same; [..|exact X]; reflexivity|].
+      split; [eapply GL_frame; [..|exact G]; reflexivity|auto].
+    - (* Call *)
+      apply Easy; [|apply UFrame_upd_calls]. apply UI_new_call; [exact X|exact G|].
+      cbn [c_phase]. destruct (nth_error (handles s) h) as [[|]|]; auto.
+    - (* PollCall *)
+      pose proof (poll_call_UI s i X G Hnw) as U. pose proof (UFrame_poll_call s i) as F.
+      destruct (poll_call s i) as [r s1]. cbn [fst snd] in *. eapply Inv_UI; eassumption.
+    - (* DropCall *)
+      destruct (option_map c_phase (nth_error (calls s) i)) as [[]|];
+        try exact I;
+        (pose proof (guard_close_UI s i X G) as U1;
+         pose proof (guard_cancel_UI (guard_close s i) i (proj1 U1) (proj1 (proj2 U1))) as U2;
+         apply Easy; [eapply UI_trans; eassumption
+                     |eapply UFrame_trans; [apply UFrame_guard_close|apply UFrame_guard_cancel]]).
+    - (* GuardClose *)
+      destruct (option_map c_phase (nth_error (calls s) i)) as [[]|];
+        try exact I; (apply Easy; [apply guard_close_UI; assumption|apply UFrame_guard_close]).
+    - (* GuardCancel *)
+      apply Easy; [apply guard_cancel_UI; assumption|apply UFrame_guard_cancel].
+    - (* PollDispatch *)
+      destruct (finished s) eqn:Ef; [exact I|]. destruct (dropped s) eqn:Ed; [exact I|].
+      destruct (poll_dispatch tp _ _) as [r s1] eqn:Ep. cbn [fst].
+      exact (Inv_after_pd _ _ _ _ Ep I Ef Ed).
+    - (* DropDispatch *)
+      destruct (dropped s); [exact I|apply Inv_drop_dispatch, I].
+    - (* Advance *)
+      apply Easy; [|apply UFrame_upd_misc]. unfold UI.
+      split; [eapply IX_same; [..|exact X]; reflexivity|].
+      split; [eapply GL_frame; [..|exact G]; reflexivity|auto].
+    - (* Tr *)
+      apply Easy; [|constructor; reflexivity]. unfold UI.
+      split; [eapply IX_same; [..|exact X]; reflexivity|].
+      split; [eapply GL_frame; [..|exact G]; reflexivity|auto].
+  Qed.
+
+  (* ---------------------------------------------------------------- settle *)
+  Lemma list_eqb_N_eq (a : list N) : forall b, list_eqb N.eqb a b = true -> a = b.
+  Proof.
+    induction a as [|x r IH]; intros [|y r'] H; cbn in H; try discriminate; [reflexivity|].
+    apply andb_true_iff in H. destruct H as [H1 H2]. apply N.eqb_eq in H1. f_equal; auto.
+  Qed.
+  Lemma activity_eqb_eq a b : activity_eqb a b = true -> a = b.
+  Proof. destruct a, b; cbn; intro; try reflexivity; discriminate. Qed.
+
+  Definition phases s : list N := map (fun c => rankN (c_phase c)) (calls s).
+
+  Lemma digest_eqb_true s s' :
+    digest_eqb (digest s) (digest s') = true ->
+    length (inflight s') = length (inflight s) /\ phases s' = phases s /\
+    rx_closed s' = rx_closed s /\ terminal s' = terminal s /\ finished s' = finished s.
+  Proof.
+    unfold digest, digest_eqb. intro H.
+    repeat (apply andb_true_iff in H; destruct H as [H ?]).
+    repeat match goal with X : Nat.eqb _ _ = true |- _ => apply Nat.eqb_eq in X end.
+    match goal with X : list_eqb _ _ _ = true |- _ => apply list_eqb_N_eq in X; rename X into Hp end.
+    match goal with X : Bool.eqb _ _ = true |- _ => apply Bool.eqb_prop in X; rename X into Hc end.
+    split; [congruence|]. split; [symmetry; exact Hp|]. split; [congruence|]. split.
+    - destruct (terminal s) as [a|], (terminal s') as [b|]; cbn in *; try discriminate; try reflexivity.
+      f_equal. symmetry. apply activity_eqb_eq. assumption.
+    - destruct (finished s) as [[|a]|], (finished s') as [[|b]|]; cbn in *; try discriminate; try reflexivity.
+      do 2 f_equal. symmetry. apply activity_eqb_eq. assumption.
+  Qed.
+
+  Lemma phases_PE s s' : phases s' = phases s -> PE s s'.
+  Proof.
+    intros H j k k' E1 E2. unfold phases in H.
+    assert (X : nth_error (map (fun c => rankN (c_phase c)) (calls s')) j =
+                nth_error (map (fun c => rankN (c_phase c)) (calls s)) j) by (rewrite H; reflexivity).
+    rewrite !nth_error_map, E1, E2 in X. cbn in X. injection X as X. apply rankN_inj, X.
+  Qed.
+
+  Lemma drain_false f a : forall s s',
+    drain_loop f a s = (false, s') -> (length (queue s) < f)%nat -> rx_closed s = true ->
+    count is_asg (calls s') <> 0%nat.
+  Proof.
+    induction f as [|f IH]; intros s s' H L Hc; [lia|]. cbn [drain_loop] in H.
+    destruct (q_poll_recv s) as [x s1] eqn:E.
+    pose proof (queue_q_poll_recv _ _ _ E) as Q. pose proof (rxc_q_poll_recv _ _ _ E) as R.
+    destruct x as [q| |]; [|discriminate|].
+    - apply IH in H; [exact H| |].
+      + rewrite (tf_queue _ _ (TFrame_slot_send s1 (q_id q) (OConnErr a))). lia.
+      + rewrite (tf_rxc _ _ (TFrame_slot_send s1 (q_id q) (OConnErr a))). congruence.
+    - injection H as <-. subst s1. revert E. unfold q_poll_recv.
+      destruct (queue s); [|discriminate]. destruct (Nat.eqb (senders s) 0); [discriminate|].
+      rewrite Hc. cbn [andb]. rewrite assigned_count_eq.
+      destruct (Nat.eqb_spec (count is_asg (calls s)) 0); [discriminate|]. intros _. assumption.
+  Qed.
+
+  (* one round, as settle computes it *)
+  Definition disp_half s (o : sobs) : cstate * sobs :=
+    match finished s, dropped s with
+    | None, false =>
+      let s0 := upd_tr s (tr s) (fused s) [] in
+      let '(res, s') := poll_dispatch tp (fuel_of s0) s0 in
+      (after_pd res s',
+       {| so_sent := so_sent o ++ sends_of (plog s'); so_read := so_read o ++ reads_of (plog s');
+          so_done := so_done o;
+          so_disp := match res with DReady d => Some d | _ => so_disp o end;
+          so_fuel := match res with DFuel => true | _ => so_fuel o end |})
+    | _, _ => (s, o)
+    end.
+
+  Definition round s (o : sobs) : cstate * sobs * bool :=
+    let '(s1, o1) := disp_half s o in
+    let '(s2, dn) := poll_calls s1 0 (length (calls s1)) [] in
+    let o2 := {| so_sent := so_sent o1; so_read := so_read o1; so_done := so_done o1 ++ dn;
+                 so_disp := so_disp o1; so_fuel := so_fuel o1 |} in
+    (s2, o2,
+     digest_eqb (digest s) (digest s2) && Nat.eqb (length dn) 0
+     && Nat.eqb (length (so_sent o2)) (length (so_sent o))
+     && Nat.eqb (length (so_read o2)) (length (so_read o))).
+
+  Lemma settle_S n s o :
+    settle tp fuel_of (S n) s o =
+    let '(s2, o2, q) := round s o in if q then (s2, o2) else settle tp fuel_of n s2 o2.
+  Proof.
+    unfold round, disp_half. cbn [settle].
+    destruct (finished s); [|destruct (dropped s)].
+    - destruct (poll_calls s 0 (length (calls s)) []); reflexivity.
+    - destruct (poll_calls s 0 (length (calls s)) []); reflexivity.
+    - destruct (poll_dispatch tp _ _) as [res s']. unfold after_pd.
+      destruct (poll_calls _ 0 _ []); reflexivity.
+  Qed.
+
+  Lemma disp_half_Inv s o : Inv s -> Inv (fst (disp_half s o)) /\ PM s (fst (disp_half s o)).
+  Proof.
+    intro I. unfold disp_half.
+    destruct (finished s) eqn:Ef; [split; [exact I|apply PM_refl]|].
+    destruct (dropped s) eqn:Ed; [split; [exact I|apply PM_refl]|].
+    destruct (poll_dispatch tp _ _) as [res s'] eqn:Ep. cbn [fst].
+    split; [exact (Inv_after_pd _ _ _ _ Ep I Ef Ed)|].
+    eapply PM_trans; [apply (PM_eq s (upd_tr s (tr s) (fused s) [])); reflexivity|].
+    eapply PM_trans; [eapply PM_poll_dispatch; [exact Ep|]|].
+    - eapply DI_same; [..|exact (Build_DI _ (iv_x _ I) (iv_l _ I))]; reflexivity.
+    - apply PM_eq. unfold after_pd. destruct res; reflexivity.
+  Qed.
+
+  Lemma NW_PM s s' : PM s s' -> NW s -> NW s'.
+  Proof. intros [L _]. unfold NW. rewrite L. auto. Qed.
+
+  Lemma round_Inv s o : Inv s -> NW s -> Inv (fst (fst (round s o))) /\ PM s (fst (fst (round s o))).
+  Proof.
+    intros I Hnw. unfold round. destruct (disp_half_Inv s o I) as [I1 P1].
+    destruct (disp_half s o) as [s1 o1]. cbn [fst] in I1, P1.
+    pose proof (Inv_poll_calls (length (calls s1)) s1 0 [] I1 (NW_PM _ _ P1 Hnw)) as I2.
+    pose proof (PM_poll_calls (length (calls s1)) s1 0 []) as P2.
+    destruct (poll_calls s1 0 (length (calls s1)) []) as [s2 dn]. cbn [fst] in *.
+    split; [exact I2|eapply PM_trans; eassumption].
+  Qed.
+
+  Lemma settle_Inv n : forall s o, Inv s -> NW s ->
+    Inv (fst (settle tp fuel_of n s o)) /\ PM s (fst (settle tp fuel_of n s o)).
+  Proof.
+    induction n as [|n IH]; intros s o I Hnw; [split; [exact I|apply PM_refl]|].
+    rewrite settle_S. destruct (round_Inv s o I Hnw) as [I2 P2].
+    destruct (round s o) as [[s2 o2] q]. cbn [fst] in I2, P2.
+    destruct q; [split; assumption|].
+    destruct (IH s2 o2 I2 (NW_PM _ _ P2 Hnw)) as [I3 P3]. split; [exact I3|eapply PM_trans; eassumption].
+  Qed.
+
+  (* ---------------------------------------------------------------- a quiet round *)
+  Definition QD s' : Prop :=
+    exists sa sb, Inv sa /\ plog sa = [] /\ terminal sa = None /\
+      poll_dispatch tp (fuel_of sa) sa = (DPending, sb) /\ s' = after_pd DPending sb /\
+      sends_of (plog sb) = [] /\ reads_of (plog sb) = [] /\
+      length (inflight sb) = length (inflight sa) /\ terminal sb = None.
+
+  Record QF s' : Prop := {
+    qf_calls : forall j k, nth_error (calls s') j = Some k -> is_live (c_phase k) = true -> quiet_call s' k;
+    qf_disp : finished s' = None -> dropped s' = false -> QD s' }.
+
+  Lemma Inv_upd_tr s t f l : Inv s -> Inv (upd_tr s t f l).
+  Proof.
+    intros [X G R Kk]. constructor.
+    - eapply IX_same; [..|exact X]; reflexivity.
+    - eapply GL_frame; [..|exact G]; reflexivity.
+    - eapply GR_frame; [..|exact R]; reflexivity.
+    - eapply K_frame; [..|exact Kk]; reflexivity.
+  Qed.
+
+  Lemma app_length_same {A} (a b : list A) : length (a ++ b) = length a -> b = [].
+  Proof. rewrite app_length. intro H. apply length_zero_iff_nil. lia. Qed.
+
+  Lemma round_quiet s o s2 o2 :
+    round s o = (s2, o2, true) -> Inv s -> NW s -> so_fuel o2 = false -> QF s2.
+  Proof.
+    unfold round. intros H I Hnw Hfuel.
+    destruct (disp_half_Inv s o I) as [I1 P1].
+    destruct (disp_half s o) as [s1 o1] eqn:Ed. cbn [fst] in I1, P1.
+    pose proof (PM_poll_calls (length (calls s1)) s1 0 []) as P2.
+    destruct (poll_calls s1 0 (length (calls s1)) []) as [s2' dn] eqn:Ec. cbn [fst] in P2.
+    injection H as -> <- Hq. cbn [so_sent so_read so_fuel] in *.
+    do 3 (apply andb_true_iff in Hq; destruct Hq as [Hq ?]).
+    repeat match goal with X : Nat.eqb _ _ = true |- _ => apply Nat.eqb_eq in X end.
+    destruct (digest_eqb_true _ _ Hq) as (Dl & Dp & Dc & Dt & Df).
+    destruct (PE_split _ _ _ P1 P2 (phases_PE _ _ Dp)) as [_ E12].
+    destruct (poll_calls_quiet _ _ _ _ _ _ Ec E12) as (-> & -> & Hall).
+    assert (Hcalls : forall j k, nth_error (calls s1) j = Some k -> is_live (c_phase k) = true -> quiet_call s1 k).
+    { intros j k Ek Hl. apply (Hall j); [|exact Ek|exact Hl]. split; [lia|].
+      cbn. apply nth_error_Some. congruence. }
+    constructor; [exact Hcalls|]. intros Hf1 Hd1.
+    revert Ed. unfold disp_half.
+    assert (Hf : finished s = None) by congruence. rewrite Hf.
+    destruct (dropped s) eqn:Hd; [intros [= <- <-]; congruence|].
+    set (s0 := upd_tr s (tr s) (fused s) []).
+    destruct (poll_dispatch tp (fuel_of s0) s0) as [res sb] eqn:Ep. intros [= <- <-].
+    cbn [so_sent so_read so_fuel] in *.
+    assert (Eres : res = DPending).
+    { destruct res as [d| |]; [|reflexivity|discriminate]. unfold after_pd in Hf1. cbn in Hf1. discriminate. }
+    subst res.
+    assert (Et : terminal sb = terminal s0) by exact Dt.
+    assert (Et0 : terminal s0 = None).
+    { destruct (terminal s0) as [a|] eqn:Et0; [exfalso|reflexivity].
+      unfold poll_dispatch in Ep. rewrite Et0 in Ep.
+      destruct (shut_down s0 a) as [b sb'] eqn:Es. destruct b; [discriminate|]. injection Ep as ->.
+      unfold shut_down in Es. apply drain_false in Es; [|lia|].
+      - assert (Hpos : (0 < count is_asg (calls sb))%nat) by lia.
+        destruct (count_ex _ _ Hpos) as (j & k & Ek & Hk).
+        unfold is_asg in Hk. destruct (c_phase k) eqn:Hp; try discriminate.
+        destruct (Hcalls j k Ek) as [X|[X _]]; [rewrite Hp; reflexivity|congruence|congruence].
+      - rewrite (tf_rxc _ _ (TFrame_complete_all (q_close s0) (OConnErr a))). apply q_close_closed. }
+    exists s0, sb. split; [apply Inv_upd_tr, I|]. split; [reflexivity|]. split; [exact Et0|].
+    split; [exact Ep|]. split; [reflexivity|]. split; [eapply app_length_same; eassumption|].
+    split; [eapply app_length_same; eassumption|]. split; [exact Dl|]. rewrite Et. exact Et0.
+  Qed.
+
+  Lemma settle_quiet n : forall s o s' r,
+    settle tp fuel_of n s o = (s', r) -> Inv s -> NW s -> so_fuel r = false -> QF s'.
+  Proof.
+    induction n as [|n IH]; intros s o s' r H I Hnw Hf.
+    - cbn in H. injection H as <- <-. cbn in Hf. discriminate.
+    - rewrite settle_S in H. destruct (round_Inv s o I Hnw) as [I2 P2].
+      destruct (round s o) as [[s2 o2] q] eqn:Er. cbn [fst] in I2, P2. destruct q.
+      + injection H as <- <-. eapply round_quiet; eassumption.
+      + eapply IH; [exact H|exact I2|eapply NW_PM; eassumption|exact Hf].
   Qed.
 End WInv.
+
+(* ================================================================== the scripted instance *)
+Notation sstate := (@cstate (stransport resp)).
+
+Lemma Inv_cinit c : Inv (cinit c).
+Proof.
+  unfold cinit, init. constructor.
+  - constructor.
+    + constructor; cbn.
+      * intros [|i] k H; discriminate.
+      * intros [|i] j ki kj H; discriminate.
+      * lia.
+    + constructor; cbn; [intros x []|intros x i k []].
+    + constructor; cbn; try discriminate.
+      * intros w [].
+      * constructor.
+      * congruence.
+      * intros [|i] k H; discriminate.
+      * intros _. unfold count. cbn. lia.
+  - intros [|i] k H; discriminate.
+  - constructor; cbn; [discriminate|]. intros [[a H]|H]; discriminate.
+  - constructor; cbn; [reflexivity|lia].
+Qed.
+
+Section Lengths.
+  Context {T : Type}.
+  Variable tp : transport T cmsg resp.
+  Variable fuel_of : @cstate T -> nat.
+  Notation cstate := (@cstate T).
+  Implicit Types s : cstate.
+
+  Lemma length_release_permit s : length (calls (release_permit s)) = length (calls s).
+  Proof. unfold release_permit. destruct (waiters s); [reflexivity|]. rewrite sp_length. reflexivity. Qed.
+
+  Lemma length_guard_close s i : length (calls (guard_close s i)) = length (calls s).
+  Proof.
+    unfold guard_close. destruct (nth_error (calls s) i) as [c|]; [|reflexivity].
+    destruct (c_phase c); try reflexivity; rewrite ?sp_length; try reflexivity.
+    cbn [calls slot_rx_close slot_tx_drop set_slot upd_slots].
+    destruct (rx_closed _); [cbn [calls upd_q]|rewrite length_release_permit]; apply sp_length.
+  Qed.
+  Lemma length_guard_cancel s i : length (calls (guard_cancel s i)) = length (calls s).
+  Proof.
+    unfold guard_cancel. destruct (nth_error (calls s) i) as [c|]; [|reflexivity].
+    destruct (c_phase c); try reflexivity. rewrite sp_length. unfold push_cancel.
+    destruct (dropped s); reflexivity.
+  Qed.
+
+  Lemma length_step s o :
+    Inv s ->
+    length (calls (fst (step tp fuel_of s o))) =
+    (length (calls s) + match o with Call _ _ _ _ _ => 1 | _ => 0 end)%nat.
+  Proof.
+    intro I. destruct o; cbn [step fst]; rewrite ?Nat.add_0_r.
+    - destruct (nth_error (handles s) h) as [[|]|]; reflexivity.
+    - destruct (nth_error (handles s) h) as [[|]|]; reflexivity.
+    - cbn [calls upd_calls]. rewrite app_length. reflexivity.
+    - pose proof (PM_poll_call s i) as P. destruct (poll_call s i) as [r s1]. apply P.
+    - destruct (option_map c_phase (nth_error (calls s) i)) as [[]|];
+        rewrite ?length_guard_cancel, ?length_guard_close; reflexivity.
+    - destruct (option_map c_phase (nth_error (calls s) i)) as [[]|];
+        rewrite ?length_guard_close; reflexivity.
+    - apply length_guard_cancel.
+    - destruct (finished s); [reflexivity|]. destruct (dropped s); [reflexivity|].
+      destruct (poll_dispatch tp _ _) as [r s1] eqn:Ep. cbn [fst].
+      assert (D : DI (upd_tr s (tr s) (fused s) [])).
+      { eapply DI_same; [..|exact (Build_DI _ (iv_x _ I) (iv_l _ I))]; reflexivity. }
+      pose proof (PM_poll_dispatch _ _ _ _ _ Ep D) as [L _].
+      cbn [calls upd_tr] in *. destruct r; exact L.
+    - destruct (dropped s); [reflexivity|]. unfold drop_dispatch.
+      cbn [calls upd_fin upd_cancels upd_if upd_q].
+      set (s1 := q_close s).
+      destruct (fold_tx_drop_fields q_id (queue s1) s1) as (E1 & _).
+      set (s2 := fold_left (fun acc q => slot_tx_drop acc (q_id q)) (queue s1) s1) in *.
+      destruct (fold_tx_drop_fields (@fst N ifentry) (inflight s2) s2) as (E2 & _).
+      rewrite E2, E1. apply (PM_q_close s (iv_x _ I)).
+    - reflexivity.
+    - reflexivity.
+  Qed.
+End Lengths.
+
+Lemma Inv_wstep s o :
+  Inv s -> NW s ->
+  Inv (fst (wstep s o)) /\ (length (calls (fst (wstep s o))) <= S (length (calls s)))%nat.
+Proof.
+  intros I Hnw. destruct o as [o|]; cbn [wstep].
+  - pose proof (Inv_step stp sfuel s (to_op o) I Hnw) as I1.
+    pose proof (length_step stp sfuel s (to_op o) I) as L.
+    destruct (step stp sfuel s (to_op o)) as [s1 l]. cbn [fst] in *. split; [exact I1|].
+    rewrite L. destruct (to_op o); lia.
+  - destruct (settle_Inv stp sfuel (rounds_of s + length (st_inbox (tr s))) s sobs0 I Hnw) as [I1 [L _]].
+    destruct (settle stp sfuel _ s sobs0) as [s1 r]. cbn [fst] in *. split; [exact I1|lia].
+Qed.
+
+Lemma Inv_wfinal_from ops : forall s,
+  Inv s -> N.of_nat (length (calls s) + length ops) < two64 ->
+  Inv (wfinal_from s ops) /\
+  (length (calls (wfinal_from s ops)) <= length (calls s) + length ops)%nat.
+Proof.
+  induction ops as [|o r IH]; intros s I H; cbn [wfinal_from length] in *; [split; [exact I|lia]|].
+  assert (Hnw : NW s) by (unfold NW; lia).
+  destruct (Inv_wstep s o I Hnw) as [I1 L1].
+  destruct (IH (fst (wstep s o)) I1) as [I2 L2]; [lia|]. split; [exact I2|lia].
+Qed.
+
+Lemma wfinal_from_app ops1 ops2 : forall s,
+  wfinal_from s (ops1 ++ ops2) = wfinal_from (wfinal_from s ops1) ops2.
+Proof. induction ops1 as [|o r IH]; intro s; cbn; [reflexivity|apply IH]. Qed.
+
+Lemma wrun_from_app ops1 ops2 : forall s,
+  wrun_from s (ops1 ++ ops2) = wrun_from s ops1 ++ wrun_from (wfinal_from s ops1) ops2.
+Proof.
+  induction ops1 as [|o r IH]; intro s; cbn [app wrun_from wfinal_from]; [reflexivity|].
+  destruct (wstep s o) as [s1 x]. cbn [fst]. rewrite IH. reflexivity.
+Qed.
+
+(* what `settled` and `wno_wrap` give about the final state *)
+Lemma settled_final c ops :
+  wno_wrap ops -> settled c ops ->
+  let s := wfinal c (ops ++ [WSettle]) in
+  Inv s /\ QF stp sfuel s.
+Proof.
+  intros Hw Hs. unfold wfinal. rewrite wfinal_from_app. cbn [wfinal_from].
+  set (sF := wfinal_from (cinit c) ops).
+  destruct (Inv_wfinal_from ops (cinit c) (Inv_cinit c)) as [IF LF].
+  { unfold wno_wrap in Hw. cbn. exact Hw. }
+  fold sF in IF, LF. cbn in LF.
+  assert (Hnw : NW sF) by (unfold NW, wno_wrap, two64 in *; lia).
+  unfold settled, wrun in Hs. rewrite wrun_from_app in Hs. fold sF in Hs.
+  cbn [wrun_from wstep] in Hs. cbn [wstep].
+  set (n := (rounds_of sF + length (st_inbox (tr sF)))%nat) in *.
+  pose proof (settle_Inv stp sfuel n sF sobs0 IF Hnw) as [I1 _].
+  destruct (settle stp sfuel n sF sobs0) as [s1 r] eqn:Es.
+  rewrite last_last in Hs. cbn [fst] in *.
+  split; [exact I1|].
+  eapply settle_quiet; [exact Es|exact IF|exact Hnw|]. destruct (so_fuel r); [contradiction|reflexivity].
+Qed.
+
+(* ================================================================== C02: dead dispatch *)
+Theorem c02_dead_holds : stmt_c02_dead.
+Proof.
+  unfold stmt_c02_dead. intros c ops Hw Hs Hdead i k Ek.
+  pose proof (settled_final c ops Hw Hs) as HF. cbv zeta in HF. destruct HF as [I Q].
+  set (s := wfinal c (ops ++ [WSettle])) in *.
+  destruct (is_live (c_phase k)) eqn:Hl; [exfalso|reflexivity].
+  destruct (r_dead _ (iv_r _ I) Hdead) as (Hc & Hq & Hi).
+  destruct (qf_calls _ _ _ Q i k Ek Hl) as [Hp|(Hp & Hv & Ht)].
+  - pose proof (w_in _ _ (ix_w _ (iv_x _ I)) i k Ek Hp) as X.
+    rewrite (w_closed _ _ (ix_w _ (iv_x _ I)) Hc) in X. exact X.
+  - destruct (iv_l _ I i k Ek Hp) as [L|[L|[L|L]]].
+    + rewrite Hq in L. exact L.
+    + rewrite Hi in L. exact L.
+    + contradiction.
+    + congruence.
+Qed.
+Print Assumptions c02_dead_holds.
+
+(* ================================================================== a dispatch poll that sends and reads nothing *)
+Section QuietPoll.
+  Context {T : Type}.
+  Variable tp : transport T cmsg resp.
+  Notation cstate := (@cstate T).
+  Implicit Types s : cstate.
+
+  Definition qlog (l : list (tcall cmsg resp)) : Prop := sends_of l = [] /\ reads_of l = [].
+  Definition Ext s s' : Prop := exists seg, plog s' = plog s ++ seg.
+
+  Lemma qlog_app a b : qlog (a ++ b) -> qlog a /\ qlog b.
+  Proof.
+    unfold qlog, sends_of, reads_of. rewrite !flat_map_app. intros [H1 H2].
+    apply app_eq_nil in H1. apply app_eq_nil in H2. tauto.
+  Qed.
+  Lemma Ext_refl s : Ext s s.
+  Proof. exists []. rewrite app_nil_r. reflexivity. Qed.
+  Lemma Ext_trans s1 s2 s3 : Ext s1 s2 -> Ext s2 s3 -> Ext s1 s3.
+  Proof. intros [a Ha] [b Hb]. exists (a ++ b). rewrite Hb, Ha, app_assoc. reflexivity. Qed.
+  Lemma Ext_eq s s' : plog s' = plog s -> Ext s s'.
+  Proof. intro H. exists []. rewrite app_nil_r. exact H. Qed.
+  Lemma qlog_Ext s s' : Ext s s' -> qlog (plog s') -> qlog (plog s).
+  Proof. intros [seg H] Q. rewrite H in Q. apply qlog_app in Q. tauto. Qed.
+
+  (* log grows; if the final log is quiet, the in-flight table did not grow *)
+  Definition ML s s' : Prop :=
+    Ext s s' /\ (qlog (plog s') -> (length (inflight s') <= length (inflight s))%nat).
+  Lemma ML_refl s : ML s s.
+  Proof. split; [apply Ext_refl|lia]. Qed.
+  Lemma ML_trans s1 s2 s3 : ML s1 s2 -> ML s2 s3 -> ML s1 s3.
+  Proof.
+    intros [E1 L1] [E2 L2]. split; [eapply Ext_trans; eassumption|]. intro Q.
+    specialize (L2 Q). specialize (L1 (qlog_Ext _ _ E2 Q)). lia.
+  Qed.
+  Lemma ML_same s s' : plog s' = plog s -> (length (inflight s') <= length (inflight s))%nat -> ML s s'.
+  Proof. intros H L. split; [apply Ext_eq, H|intros _; exact L]. Qed.
+  Lemma ML_noisy s s' : Ext s s' -> ~ qlog (plog s') -> ML s s'.
+  Proof. intros E N. split; [exact E|]. intro Q. contradiction. Qed.
+
+  Lemma Ext_do_ready s r s' : do_ready tp s = (r, s') -> Ext s s'.
+  Proof. intro H. apply do_ready_eq in H. rewrite H. eexists; reflexivity. Qed.
+  Lemma Ext_do_flush s r s' : do_flush tp s = (r, s') -> Ext s s'.
+  Proof. intro H. apply do_flush_eq in H. rewrite H. eexists; reflexivity. Qed.
+  Lemma Ext_do_close s r s' : do_close tp s = (r, s') -> Ext s s'.
+  Proof. intro H. apply do_close_eq in H. rewrite H. eexists; reflexivity. Qed.
+  Lemma Ext_do_send s m r s' : do_send tp s m = (r, s') -> Ext s s'.
+  Proof. intro H. apply do_send_eq in H. rewrite H. eexists; reflexivity. Qed.
+  Lemma Ext_do_next s r s' : do_next tp s = (r, s') -> Ext s s'.
+  Proof.
+    intro H. apply do_next_eq in H. destruct H as [(_ & _ & ->)|(_ & H)]; [apply Ext_refl|].
+    rewrite H. eexists; reflexivity.
+  Qed.
+  Lemma noisy_do_send s m r s' : do_send tp s m = (r, s') -> ~ qlog (plog s').
+  Proof.
+    intros H Q. apply do_send_eq in H. rewrite H in Q. cbn [plog upd_tr] in Q.
+    apply qlog_app in Q. destruct Q as [_ [Q _]]. cbn in Q. discriminate.
+  Qed.
+  Lemma noisy_do_next s x s' : do_next tp s = (RItem x, s') -> ~ qlog (plog s').
+  Proof.
+    intros H Q. apply do_next_eq in H. destruct H as [(_ & H & _)|(_ & H)]; [discriminate|].
+    rewrite H in Q. cbn [plog upd_tr] in Q. apply qlog_app in Q. destruct Q as [_ [_ Q]].
+    cbn in Q. discriminate.
+  Qed.
+
+  Lemma ML_X s s' : XFrame s s' -> Ext s s' -> ML s s'.
+  Proof. intros F E. split; [exact E|]. intros _. rewrite (xf_inflight _ _ F). lia. Qed.
+
+  Lemma Ext_ensure_writeable s r s' : ensure_writeable tp s = (r, s') -> Ext s s'.
+  Proof.
+    intro H. apply ensure_writeable_inv in H.
+    destruct H as [r s1 H1 _|s1 s2 H1 H2|s1 s2 H1 H2|s1 s2 r s3 H1 H2 H3];
+      repeat match goal with
+             | X : do_ready _ _ = _ |- _ => apply Ext_do_ready in X
+             | X : do_flush _ _ = _ |- _ => apply Ext_do_flush in X
+             end; eauto using Ext_trans.
+  Qed.
+  Lemma ML_ensure_writeable s r s' : ensure_writeable tp s = (r, s') -> ML s s'.
+  Proof. intro H. apply ML_X; [eapply XFrame_ensure_writeable, H|eapply Ext_ensure_writeable, H]. Qed.
+
+  Lemma ML_T_le s s' : TFrame s s' -> (length (inflight s') <= length (inflight s))%nat -> ML s s'.
+  Proof. intros F L. apply ML_same; [apply F|exact L]. Qed.
+
+  Lemma le_complete_request s id o :
+    (length (inflight (snd (complete_request s id o))) <= length (inflight s))%nat.
+  Proof.
+    unfold complete_request. destruct (alookup id (inflight s)); cbn [snd]; [|lia].
+    rewrite (qf_inflight _ _ (QFrame_slot_send _ id o)). cbn [inflight upd_if]. apply length_aremove_le.
+  Qed.
+  Lemma le_cancel_request s id :
+    (length (inflight (snd (cancel_request s id))) <= length (inflight s))%nat.
+  Proof.
+    unfold cancel_request. destruct (alookup id (inflight s)); cbn [snd]; [|lia].
+    cbn [inflight upd_if]. apply length_aremove_le.
+  Qed.
+  Lemma le_poll_expired s : (length (inflight (snd (poll_expired s))) <= length (inflight s))%nat.
+  Proof.
+    unfold poll_expired. destruct (min_timer (timers s) None) as [[id w]|]; [|cbn [snd]; lia].
+    destruct (N.leb w (now s)); [|cbn [snd]; lia]. cbn [inflight upd_if].
+    destruct (alookup id (inflight s)); cbn [snd]; [|cbn [inflight upd_if]; lia].
+    rewrite (qf_inflight _ _ (QFrame_slot_send _ id ODeadline)). cbn [inflight upd_if]. apply length_aremove_le.
+  Qed.
+
+  Lemma next_cancel_loop_inflight f : forall s r s',
+    next_cancel_loop f s = (r, s') ->
+    (length (inflight s') <= length (inflight s))%nat /\
+    (is_psome r = false -> inflight s' = inflight s /\ timers s' = timers s).
+  Proof.
+    induction f as [|f IH]; intros s r s' H; cbn [next_cancel_loop] in H.
+    - injection H as <- <-. split; [lia|auto].
+    - destruct (c_poll_recv s) as [x s1] eqn:E.
+      destruct x as [id| |];
+        try (apply c_poll_recv_other in E; [|discriminate]; subst s1; injection H as <- <-; split; [lia|auto]).
+      destruct (c_poll_recv_some _ _ _ E) as (rest & Ec & ->).
+      unfold cancel_request in H. cbn [inflight timers upd_cancels] in H.
+      destruct (alookup id (inflight s)) as [e|].
+      + injection H as <- <-. split; [|discriminate]. cbn [inflight upd_if]. apply length_aremove_le.
+      + apply IH in H. exact H.
+  Qed.
+
+  Lemma Ext_I s s' : IFrame s s' -> Ext s s'.
+  Proof. intro F. apply Ext_eq, F. Qed.
+
+  Lemma ML_poll_write_request s r s' : poll_write_request tp s = (r, s') -> ML s s'.
+  Proof.
+    intro H. apply poll_write_request_inv in H.
+    destruct H as [_|r s1 _ H1 Hr|r s1 s2 _ H1 H2 Hr|s1 q s2 w s3 L H1 H2 H3].
+    - apply ML_refl.
+    - eapply ML_ensure_writeable, H1.
+    - eapply ML_trans; [eapply ML_ensure_writeable, H1|].
+      pose proof (IFrame_next_request_loop (S (length (queue s1))) s1) as F1.
+      pose proof (QFrame_next_request_loop (S (length (queue s1))) s1) as F2.
+      rewrite H2 in F1, F2. cbn [snd] in F1, F2.
+      apply ML_same; [apply F1|rewrite (qf_inflight _ _ F2); lia].
+    - pose proof (IFrame_next_request_loop (S (length (queue s1))) s1) as F1.
+      rewrite H2 in F1. cbn [snd] in F1.
+      assert (E3 : Ext s s3).
+      { eapply Ext_trans; [eapply Ext_ensure_writeable, H1|]. eapply Ext_trans; [apply Ext_I, F1|].
+        eapply Ext_trans; [apply Ext_I, TFrame_I, TFrame_insert_request|eapply Ext_do_send, H3]. }
+      pose proof (noisy_do_send _ _ _ _ H3) as N3.
+      destruct w; [apply ML_noisy; assumption|].
+      pose proof (TFrame_complete_request s3 (q_id q) OSendErr) as F5.
+      apply ML_noisy; [eapply Ext_trans; [exact E3|apply Ext_I, TFrame_I, F5]|].
+      rewrite (if_plog _ _ (TFrame_I _ _ F5)). exact N3.
+  Qed.
+
+  Lemma ML_poll_write_cancel s r s' : poll_write_cancel tp s = (r, s') -> ML s s'.
+  Proof.
+    intro H. apply poll_write_cancel_inv in H.
+    destruct H as [r s1 H1 Hr|r s1 s2 H1 H2 Hr|s1 id e s2 w s3 H1 H2 H3].
+    - eapply ML_ensure_writeable, H1.
+    - eapply ML_trans; [eapply ML_ensure_writeable, H1|].
+      pose proof (IFrame_next_cancel_loop (S (length (cancels s1))) s1) as F1.
+      rewrite H2 in F1. cbn [snd] in F1.
+      apply ML_same; [apply F1|apply (next_cancel_loop_inflight _ _ _ _ H2)].
+    - pose proof (IFrame_next_cancel_loop (S (length (cancels s1))) s1) as F1.
+      rewrite H2 in F1. cbn [snd] in F1.
+      apply ML_noisy; [|eapply noisy_do_send, H3].
+      eapply Ext_trans; [eapply Ext_ensure_writeable, H1|].
+      eapply Ext_trans; [apply Ext_I, F1|eapply Ext_do_send, H3].
+  Qed.
+
+  Lemma ML_poll_expired s : ML s (snd (poll_expired s)).
+  Proof. apply ML_T_le; [apply TFrame_poll_expired|apply le_poll_expired]. Qed.
+
+  Lemma ML_pump_write s r s' : pump_write tp s = (r, s') -> ML s s'.
+  Proof.
+    intro H. apply pump_write_inv in H.
+    destruct H as [a s1 H1|u s1 H1|r1 s1 a s2 H1 I1 H2|r1 s1 u s2 H1 I1 H2
+                  |r1 s1 r2 s2 id s3 H1 I1 H2 I2 H3|s1 s2 s3 x s4 H1 H2 H3 H4
+                  |r1 s1 r2 s2 s3 x s4 H1 I1 H2 I2 I12 H3 H4];
+      pose proof (ML_poll_write_request _ _ _ H1) as M1; try exact M1;
+      pose proof (ML_poll_write_cancel _ _ _ H2) as M2; try (eapply ML_trans; eassumption);
+      pose proof (ML_poll_expired s2) as M3; rewrite H3 in M3; cbn [snd] in M3.
+    - eapply ML_trans; [exact M1|]. eapply ML_trans; eassumption.
+    - eapply ML_trans; [exact M1|]. eapply ML_trans; [exact M2|]. eapply ML_trans; [exact M3|].
+      apply ML_X; [eapply XFrame_do_close, H4|eapply Ext_do_close, H4].
+    - eapply ML_trans; [exact M1|]. eapply ML_trans; [exact M2|]. eapply ML_trans; [exact M3|].
+      apply ML_X; [eapply XFrame_do_flush, H4|eapply Ext_do_flush, H4].
+  Qed.
+
+  Lemma ML_pump_read s r s' : pump_read tp s = (r, s') -> ML s s'.
+  Proof.
+    intro H. apply pump_read_inv in H. destruct H as (x & s1 & H1 & -> & ->).
+    pose proof (ML_X _ _ (XFrame_do_next _ _ _ _ H1) (Ext_do_next _ _ _ H1)) as M1.
+    destruct x; try exact M1.
+    eapply ML_trans; [exact M1|]. apply ML_T_le; [apply TFrame_complete|apply le_complete_request].
+  Qed.
+
+  Lemma ML_run_loop f : forall s r s', run_loop tp f s = (r, s') -> ML s s'.
+  Proof.
+    induction f as [|f IH]; intros s r s' H; [cbn in H; injection H as _ <-; apply ML_refl|].
+    apply run_loop_inv in H.
+    destruct H as [a s1 H1|rd s1 a s2 H1 N1 H2|s1 wr s2 H1 H2 N2|rd s1 s2 H1 D1 H2 L2
+                  |s1 wr s2 H1 H2 D2|rd s1 wr s2 r s3 H1 H2 D' H3];
+      pose proof (ML_pump_read _ _ _ H1) as M1; try exact M1;
+      pose proof (ML_pump_write _ _ _ H2) as M2; try (eapply ML_trans; eassumption).
+    eapply ML_trans; [exact M1|]. eapply ML_trans; [exact M2|]. eapply IH, H3.
+  Qed.
+
+  (* ---------------------------------------------------------------- timers *)
+  Lemma min_timer_spec l : forall best,
+    match min_timer l best with
+    | None => l = [] /\ best = None
+    | Some (rid, rw) =>
+      (In (rid, rw) l \/ best = Some (rid, rw)) /\
+      (forall id w, In (id, w) l -> rw <= w) /\
+      (forall bid bw, best = Some (bid, bw) -> rw <= bw)
+    end.
+  Proof.
+    induction l as [|[id w] r IH]; intro best; cbn [min_timer].
+    - destruct best as [[bid bw]|]; [|auto]. split; [right; reflexivity|]. split; [intros ? ? []|].
+      intros ? ? [= -> ->]. lia.
+    - destruct best as [[bid bw]|].
+      + destruct ((w <? bw) || ((w =? bw) && (id <? bid))) eqn:E.
+        * specialize (IH (Some (id, w))). destruct (min_timer r (Some (id, w))) as [[rid rw]|].
+          -- destruct IH as (A & B & C). specialize (C id w eq_refl).
+             split; [destruct A as [A|A]; [left; right; exact A|left; left; congruence]|].
+             split; [intros id' w' [[= <- <-]|Hin]; [exact C|eapply B, Hin]|].
+             intros ? ? [= <- <-]. lia.
+          -- destruct IH as [_ X]. discriminate.
+        * specialize (IH (Some (bid, bw))). destruct (min_timer r (Some (bid, bw))) as [[rid rw]|].
+          -- destruct IH as (A & B & C). specialize (C bid bw eq_refl).
+             split; [destruct A as [A|A]; [left; right; exact A|right; exact A]|].
+             split; [intros id' w' [[= <- <-]|Hin]; [lia|eapply B, Hin]|].
+             intros ? ? [= <- <-]. exact C.
+          -- destruct IH as [_ X]. discriminate.
+      + specialize (IH (Some (id, w))). destruct (min_timer r (Some (id, w))) as [[rid rw]|].
+        * destruct IH as (A & B & C). specialize (C id w eq_refl).
+          split; [destruct A as [A|A]; [left; right; exact A|left; left; congruence]|].
+          split; [intros id' w' [[= <- <-]|Hin]; [exact C|eapply B, Hin]|]. discriminate.
+        * destruct IH as [_ X]. discriminate.
+  Qed.
+
+  Lemma poll_expired_none s s' :
+    poll_expired s = (None, s') -> s' = s /\ forall id w, In (id, w) (timers s) -> now s < w.
+  Proof.
+    unfold poll_expired. pose proof (min_timer_spec (timers s) None) as M.
+    destruct (min_timer (timers s) None) as [[rid rw]|].
+    - destruct (N.leb_spec rw (now s)) as [L|L].
+      + destruct (alookup rid _); discriminate.
+      + intros [= <-]. split; [reflexivity|]. intros id w Hin. destruct M as (_ & B & _).
+        specialize (B id w Hin). lia.
+    - intros [= <-]. split; [reflexivity|]. destruct M as [-> _]. intros ? ? [].
+  Qed.
+
+  Lemma poll_expired_some s id s' :
+    poll_expired s = (Some id, s') -> K s -> (length (inflight s') < length (inflight s))%nat.
+  Proof.
+    unfold poll_expired. intros H Kk. pose proof (min_timer_spec (timers s) None) as M.
+    destruct (min_timer (timers s) None) as [[rid rw]|]; [|discriminate].
+    destruct (N.leb rw (now s)); [|discriminate].
+    destruct M as ([M|M] & _); [|discriminate].
+    assert (Hin : In rid (map fst (inflight s))).
+    { rewrite <- (k_keys _ Kk). apply (in_map fst) in M. exact M. }
+    cbn [inflight timers upd_if] in H.
+    destruct (in_alookup_some _ _ Hin) as (e & Ee). rewrite Ee in H. injection H as _ <-.
+    rewrite (qf_inflight _ _ (QFrame_slot_send _ rid ODeadline)). cbn [inflight upd_if].
+    apply length_aremove_lt, Hin.
+  Qed.
+
+  Lemma next_request_loop_pend f : forall s s',
+    next_request_loop f s = (PPend, s') -> (length (queue s) < f)%nat -> queue s' = [].
+  Proof.
+    induction f as [|f IH]; intros s s' H L; [lia|]. cbn [next_request_loop] in H.
+    destruct (q_poll_recv s) as [x s1] eqn:E. pose proof (queue_q_poll_recv _ _ _ E) as Q.
+    destruct x as [q| |]; [|discriminate|].
+    - destruct (sl_rx_closed _); [|discriminate]. apply IH in H; [exact H|]. cbn [queue slot_tx_drop set_slot upd_slots]. lia.
+    - injection H as <-. subst s1. apply (q_poll_recv_other _ _ _ E). discriminate.
+  Qed.
+End QuietPoll.
+
+(* ================================================================== the scripted transport, writable *)
+Definition Wp (t : stransport resp) : Prop :=
+  st_ready t = true /\ st_flushok t = true /\
+  st_fail_ready t = false /\ st_fail_send t = false /\ st_fail_flush t = false /\
+  st_fail_close t = false /\ st_fail_next t = false /\
+  (st_cap t = 0%nat \/ st_coupled t = true \/ (st_buffered t < st_cap t)%nat).
+
+Lemma writable_Wp t : writable t = true -> Wp t.
+Proof.
+  unfold writable, Wp.
+  destruct (st_ready t), (st_flushok t), (st_fail_ready t), (st_fail_send t), (st_fail_flush t),
+    (st_fail_close t), (st_fail_next t); cbn [andb orb negb]; intro H; try discriminate.
+  repeat (split; [reflexivity|]). lia.
+Qed.
+
+Lemma s_ready_back (t : stransport resp) r t' : s_ready t = (r, t') -> r <> TErr -> t' = t.
+Proof.
+  unfold s_ready. destruct (st_fail_ready t); [intros [= <- _]; congruence|].
+  destruct (_ && _); intros [= _ <-]; reflexivity.
+Qed.
+Lemma s_close_back (t : stransport resp) r t' : s_close t = (r, t') -> r <> TErr -> t' = t.
+Proof.
+  unfold s_close. destruct (st_fail_close t); [intros [= <- _]; congruence|].
+  destruct (st_closeok t); intros [= _ <-]; reflexivity.
+Qed.
+Lemma s_next_back (t : stransport resp) r t' :
+  s_next t = (r, t') -> r = RPending \/ r = REof -> t' = t.
+Proof.
+  unfold s_next. destruct (st_fail_next t); [intros [= <- _] [X|X]; discriminate|].
+  destruct (st_inbox t); [|intros [= <- _] [X|X]; discriminate].
+  destruct (st_eof t); intros [= _ <-]; reflexivity.
+Qed.
+Lemma s_flush_back (t : stransport resp) r t' : s_flush t = (r, t') -> r <> TErr -> Wp t' -> Wp t.
+Proof.
+  unfold s_flush. destruct (st_fail_flush t) eqn:Ef; [intros [= <- _]; congruence|].
+  destruct (st_flushok t) eqn:Eo; [|intros [= _ <-]; auto].
+  intros [= _ <-] _. unfold Wp. cbn [st_with st_ready st_flushok st_fail_ready st_fail_send st_fail_flush
+    st_fail_close st_fail_next st_cap st_coupled st_buffered].
+  intros (A & B & C & D & E & F & G & H). repeat (split; [assumption|]).
+  destruct (st_coupled t); [auto|]. destruct H as [H|[H|H]]; auto. discriminate.
+Qed.
+
+Section Scripted.
+  Notation cstate := sstate.
+  Implicit Types s : cstate.
+
+  Lemma do_ready_tr s r s1 : do_ready stp s = (r, s1) -> s_ready (tr s) = (r, tr s1).
+  Proof.
+    unfold do_ready. change (t_ready stp (tr s)) with (s_ready (tr s)).
+    destruct (s_ready (tr s)) as [r0 t0]. intros [= <- <-]. reflexivity.
+  Qed.
+  Lemma do_flush_tr s r s1 : do_flush stp s = (r, s1) -> s_flush (tr s) = (r, tr s1).
+  Proof.
+    unfold do_flush. change (t_flush stp (tr s)) with (s_flush (tr s)).
+    destruct (s_flush (tr s)) as [r0 t0]. intros [= <- <-]. reflexivity.
+  Qed.
+  Lemma do_close_tr s r s1 : do_close stp s = (r, s1) -> s_close (tr s) = (r, tr s1).
+  Proof.
+    unfold do_close. change (t_close stp (tr s)) with (s_close (tr s)).
+    destruct (s_close (tr s)) as [r0 t0]. intros [= <- <-]. reflexivity.
+  Qed.
+  Lemma do_next_tr s r s1 :
+    do_next stp s = (r, s1) -> tr s1 = tr s \/ s_next (tr s) = (r, tr s1).
+  Proof.
+    unfold do_next. destruct (fused s); [intros [= _ <-]; left; reflexivity|].
+    change (t_next stp (tr s)) with (s_next (tr s)).
+    destruct (s_next (tr s)) as [r0 t0]. intros [= <- <-]. right. reflexivity.
+  Qed.
+
+  Definition Back s s' : Prop := Wp (tr s') -> Wp (tr s).
+  Lemma Back_refl s : Back s s. Proof. unfold Back; auto. Qed.
+  Lemma Back_trans s1 s2 s3 : Back s1 s2 -> Back s2 s3 -> Back s1 s3.
+  Proof. unfold Back; auto. Qed.
+  Lemma Back_eq s s' : tr s' = tr s -> Back s s'.
+  Proof. unfold Back. intros ->. auto. Qed.
+  Lemma Back_I s s' : IFrame s s' -> Back s s'.
+  Proof. intro F. apply Back_eq, F. Qed.
+  Lemma Back_T s s' : TFrame s s' -> Back s s'.
+  Proof. intro F. apply Back_I, TFrame_I, F. Qed.
+
+  Lemma Back_do_ready s r s1 : do_ready stp s = (r, s1) -> r <> TErr -> Back s s1.
+  Proof. intros H N. apply do_ready_tr in H. apply Back_eq. eapply s_ready_back; eassumption. Qed.
+  Lemma Back_do_close s r s1 : do_close stp s = (r, s1) -> r <> TErr -> Back s s1.
+  Proof. intros H N. apply do_close_tr in H. apply Back_eq. eapply s_close_back; eassumption. Qed.
+  Lemma Back_do_flush s r s1 : do_flush stp s = (r, s1) -> r <> TErr -> Back s s1.
+  Proof. intros H N. apply do_flush_tr in H. unfold Back. eapply s_flush_back; eassumption. Qed.
+  Lemma Back_do_next s r s1 : do_next stp s = (r, s1) -> r = RPending \/ r = REof -> Back s s1.
+  Proof.
+    intros H N. apply do_next_tr in H. apply Back_eq. destruct H as [H|H]; [exact H|].
+    eapply s_next_back; eassumption.
+  Qed.
+
+  Lemma ew_back s r s' : ensure_writeable stp s = (r, s') -> (forall a, r <> PErr a) -> Back s s'.
+  Proof.
+    intros H N. apply ensure_writeable_inv in H.
+    destruct H as [r s1 H1 Hr|s1 s2 H1 H2|s1 s2 H1 H2|s1 s2 r s3 H1 H2 H3].
+    - eapply Back_do_ready; [exact H1|]. intros ->. eapply N; reflexivity.
+    - exfalso. eapply N; reflexivity.
+    - eapply Back_trans; [eapply Back_do_ready; [exact H1|discriminate]|].
+      eapply Back_do_flush; [exact H2|discriminate].
+    - eapply Back_trans; [eapply Back_do_ready; [exact H1|discriminate]|].
+      eapply Back_trans; [eapply Back_do_flush; [exact H2|discriminate]|].
+      eapply Back_do_ready; [exact H3|]. intros ->. eapply N; reflexivity.
+  Qed.
+
+  Lemma ew_Wp s r s' : ensure_writeable stp s = (r, s') -> Wp (tr s) -> r = PSome tt.
+  Proof.
+    intros H (A & B & C & D & E & F & G & HW). unfold ensure_writeable, do_ready, do_flush in H.
+    change (t_ready stp) with (@s_ready resp) in H. change (t_flush stp) with (@s_flush resp) in H.
+    unfold s_ready at 1 in H. rewrite C, A in H. cbn [andb] in H.
+    destruct (Nat.eqb (st_cap (tr s)) 0 || (st_buffered (tr s) <? st_cap (tr s))%nat) eqn:Er.
+    - injection H as <- _. reflexivity.
+    - cbn [tr upd_tr] in H. unfold s_flush in H. rewrite E, B in H.
+      cbn [tr upd_tr] in H. unfold s_ready in H.
+      cbn [st_with st_ready st_fail_ready st_cap st_buffered] in H. rewrite C, A in H.
+      assert (Hc : st_coupled (tr s) = true) by (destruct HW as [X|[X|X]]; [lia|exact X|lia]).
+      rewrite Hc in H. cbn [andb] in H.
+      assert (Hz : (Nat.eqb (st_cap (tr s)) 0 || (0 <? st_cap (tr s))%nat) = true) by lia.
+      rewrite Hz in H. injection H as <- _. reflexivity.
+  Qed.
+End Scripted.
